@@ -764,27 +764,30 @@ func (c *AttackCtx) encryptOp(root *etree.Element, op Op) *etree.Element {
 // namespace it carries, and whether all of them are direct children of the root.
 func CountAssertionElements(root *etree.Element) (assertions, encrypted int, allDirect bool) {
 	allDirect = true
-	var walk func(e *etree.Element)
-	walk = func(e *etree.Element) {
+	var walk func(e *etree.Element, insideEnc bool)
+	walk = func(e *etree.Element, insideEnc bool) {
 		if nsOf(e) == NSAssertion && (e.Tag == "Assertion" || e.Tag == "EncryptedAssertion") {
-			if e.Tag == "Assertion" {
-				assertions++
-			} else {
-				encrypted++
-			}
-			if e.Parent() != root {
-				allDirect = false
+			// an XML-Encryption processor replaces a whole EncryptedAssertion by its plaintext: a plain
+			// Assertion parked inside one is discarded, never inspected and never honoured. A further
+			// EncryptedAssertion in there is still "an encrypted assertion that is not a direct child".
+			if !(insideEnc && e.Tag == "Assertion") {
+				if e.Tag == "Assertion" {
+					assertions++
+				} else {
+					encrypted++
+				}
+				if e.Parent() != root {
+					allDirect = false
+				}
 			}
 			if e.Tag == "EncryptedAssertion" {
-				// an XML-Encryption processor replaces the whole element by its plaintext: whatever else an
-				// attacker parks inside it is discarded, never inspected and never honoured
-				return
+				insideEnc = true
 			}
 		}
 		for _, ch := range e.ChildElements() {
-			walk(ch)
+			walk(ch, insideEnc)
 		}
 	}
-	walk(root)
+	walk(root, false)
 	return
 }
